@@ -2247,6 +2247,36 @@ package leveldb
 //@   at before call makeInternalKey#1
 //@     assert [C01,C03,C15:the-lookup-probe-carries-the-callers-key-and-sequence-number] sameslice(arg1, key) && arg2 == seq && arg3 == keyTypeSeek
 
+// C02 / C20: what an iterator shows. Off the ends, released or failed it shows nothing (nil, not the bytes of the
+// entry it stood on before); positioned, it shows its own copies of the current entry.
+//@ func (*dbIter).Key
+//@   props C02 C20 C18
+//@   safety off
+//@   ensures [C02,C18,C20:nothing-is-shown-off-the-ends-or-after-an-error] (i.err != nil || i.dir <= dirEOI) ==> isnil(result)
+//@   ensures [C02,C20:positioned-shows-the-iterators-own-copy] (i.err == nil && i.dir > dirEOI) ==> sameslice(result, i.key)
+//@ func (*dbIter).Value
+//@   props C02 C20 C18
+//@   safety off
+//@   ensures [C02,C18,C20:nothing-is-shown-off-the-ends-or-after-an-error] (i.err != nil || i.dir <= dirEOI) ==> isnil(result)
+//@   ensures [C02,C20:positioned-shows-the-iterators-own-copy] (i.err == nil && i.dir > dirEOI) ==> sameslice(result, i.value)
+
+// C01: "not found" is an answer of Has, not an error; every other error is passed on.
+//@ func nilIfNotFound
+//@   props C01 C08
+//@   safety off
+//@   ensures [C01,C08:only-not-found-is-turned-into-no-error] (err == ErrNotFound ==> result == nil) && (err != ErrNotFound ==> result == err)
+
+// C07: a compaction that is given up removes every table it has written so far - each table its record lists, by
+// that table's own number - and reports the first removal that failed.
+//@ func (*tableCompactionBuilder).revert
+//@   props C07 C08
+//@   safety off
+//@   loop 1
+//@     invariant [C07,C08:one-removal-per-table-written-so-far] calls("storage.Storage.Remove") == old(calls("storage.Storage.Remove")) + rangeidx
+//@   at before call storage.Storage.Remove#1
+//@     assert [C07,C08:the-table-removed-is-the-one-the-record-lists] arg0.Type == storage.TypeTable && arg0.Num == at.num
+//@   ensures [C07,C08:every-table-written-is-removed-unless-a-removal-failed] result == nil ==> calls("storage.Storage.Remove") == old(calls("storage.Storage.Remove")) + len(b.rec.addedTables)
+
 // C03 / C18 / C07: giving a view back. A snapshot gives its registration back exactly once - the first Release does,
 // any later one does nothing (a second release would un-pin what another snapshot at the same sequence number still
 // needs); an iterator releases its source and its version reference exactly once and a second Release touches nothing.
